@@ -413,6 +413,7 @@ FeatS == {"arr", "ptr", "replace", "null"}
 FeatK == {"obj", "cs", "replace", "null"}
 FeatKB == {"obj"}
 FeatSV == {"sethelpers", "fail", "arr"}
+FeatAN == {"addnew", "fail", "obj", "null"}
 KindsStr == {"str", "arr"}
 FeatRS == {"arr", "ref"}
 FeatO == {"obj", "cs", "ref", "dup", "sethelpers", "replace", "alias"}
